@@ -18,6 +18,7 @@ def run(ctx):
                 for pat in ((0, 3) if main else (3,)):
                     jobs.append((exe, [a, mode, pat, 1 if (ctx.thorough and main) else 0], be))
     common.parallel(lambda j: common.run_harness(ctx, j[0], j[1], label=j[2]), jobs)
+    common.align_jobs(ctx, jobs, lambda j: j[2] in ("asm", "c64") and j[1][2] == 3)
     common.mid_lengths(ctx, ["hash:0", "hash:1", "xof-in:0", "xof-in:1", "xof-out:0", "xof-out:1"], ("asm", "c64", "c32", "dxor", "generic") if ctx.thorough else ("asm", "c32"))
     if ctx.thorough:
         common.huge_lengths(ctx, ["hash:0", "hash:1", "xof-in:0", "xof-in:1", "xof-out:0", "xof-out:1"])
